@@ -289,6 +289,29 @@ func checkC15(w *World, r *Report) {
 			}
 		}
 	})
+	// the timestamp recorded with the loaded template must be on the same clock as the one it
+	// is later compared with: it derives from the loader's GetModifiedTime, not from time.Now
+	instrsOf(load, func(in ssa.Instruction) {
+		st, ok := in.(*ssa.Store)
+		if !ok {
+			return
+		}
+		fa, ok := st.Addr.(*ssa.FieldAddr)
+		if !ok {
+			return
+		}
+		if tn, f := fieldOfAddr(fa); tn != "Template" || f != "lastModified" {
+			return
+		}
+		n4++
+		construct := "recorded lastModified is the loader's modification time"
+		src := timestampSource(st.Val, map[ssa.Value]bool{}, 0)
+		if src == "loader" {
+			r.ok("R15.4", name, construct, w.posOf(in.Pos()), "derives from GetModifiedTime of the loader that delivered the source (0 if the loader has no timestamps)", true)
+		} else {
+			r.bad("R15.4", name, construct, w.posOf(in.Pos()), "the cached template's lastModified comes from "+src+", but the staleness test compares it with the loader's modification time: a change whose timestamp is not later than the previous load is never picked up")
+		}
+	})
 	r.floor("cache accesses and staleness tests in Engine.Load", n4, 3)
 	r.note("with the cache flag off RegisterString/RegisterTemplate drop the template (the map is registry and cache in one); by reading, not decided")
 }
@@ -388,4 +411,49 @@ func checkLoaderLoops(w *World, r *Report) {
 		}
 	}
 	r.floor("loader loops", n, 1)
+}
+
+// timestampSource classifies where an int64 timestamp comes from: "loader" if every non-constant
+// contribution is the result of GetModifiedTime; otherwise a description.
+func timestampSource(v ssa.Value, seen map[ssa.Value]bool, depth int) string {
+	if seen[v] || depth > 8 {
+		return "loader"
+	}
+	seen[v] = true
+	switch x := v.(type) {
+	case *ssa.Const:
+		return "loader" // zero: loader without timestamps
+	case *ssa.Extract:
+		if isGetModTime(x.Tuple) {
+			return "loader"
+		}
+		if c, ok := x.Tuple.(*ssa.Call); ok {
+			return "the result of " + c.Call.Value.Name()
+		}
+	case *ssa.Phi:
+		for _, e := range x.Edges {
+			if s := timestampSource(e, seen, depth+1); s != "loader" {
+				return s
+			}
+		}
+		return "loader"
+	case *ssa.UnOp:
+		if al, ok := x.X.(*ssa.Alloc); ok && al.Referrers() != nil {
+			for _, ref := range *al.Referrers() {
+				if st, ok := ref.(*ssa.Store); ok && st.Addr == al {
+					if s := timestampSource(st.Val, seen, depth+1); s != "loader" {
+						return s
+					}
+				}
+			}
+			return "loader"
+		}
+	case *ssa.Call:
+		if f := x.Call.StaticCallee(); f != nil {
+			return "the result of " + f.String()
+		}
+	case *ssa.Convert:
+		return timestampSource(x.X, seen, depth+1)
+	}
+	return "a value of unknown origin"
 }
